@@ -41,7 +41,8 @@ ASSUMPTIONS = [
 RULE = (
     "per run: one family member (mlp, mlp_nn, resblock, attn, uu_block, embed_res; seeded sizes) or a generated program (C16 vocabulary), then 3-12 ops from "
     "{derive (any legal chain order over unit_scale / simulate_fp8 / simulate_format lossless|E5M2-nearest|E4M3-SR|srbits / "
-    "track_scales / compile[thorough]), call fwd or fwd+bwd, call_original, sync, drop+gc, dynamo reset, failing call "
+    "track_scales / compile[thorough]), call fwd or fwd+bwd, call_original, sync, perturb (a member's parameters move away from the original's; "
+    "whatever is derived from it must start from its state), drop+gc, dynamo reset, failing call "
     "(bad shape / out-of-range index), first-call interruption at line n}; non-trivial = >= 1 derive and >= 1 call; "
     "distinct = (member, op-kind sequence with chains)"
 )
